@@ -71,7 +71,26 @@ var codeTopics = []topic{
 		"Init", "Reset", "ByteAtEnd", "Read", "shrink", "WriteByte", "Write"), false, true},
 	{"DBufCopy", "decoder_buffer.go: the copy loops of DecoderBuffer", methods("DecoderBuffer",
 		"WriteMatch", "WriteBlock"), false, true},
+	// third part (part3Topics): slices of any element type as values — the hash tables and the
+	// initialisation / Reset / Shrink of the hash parser
+	{"HashTab", "hash.go: hash.init, hash.reset, hash.shiftOffsets", methods("hash",
+		"init", "reset", "shiftOffsets"), false, true},
+	{"HashDict", "hash.go: hashDictionary.init, Reset, Shrink (they are Reset and Shrink of the hashParser, which embeds it)",
+		methods("hashDictionary", "init", "Reset", "Shrink"), true, true},
+	{"HPInit", "hp.go: hashParser.init", methods("hashParser", "init"), true, true},
+	{"BucketTab", "bucket_hash.go: bucketHash.reset", methods("bucketHash", "reset"), false, true},
+	{"BucketDict", "bucket_hash.go: bucketDictionary.Reset (Reset of the bucketParser)", methods("bucketDictionary", "Reset"), false, true},
+	{"DHashDict", "hash.go: doubleHashDictionary.init, Reset, Shrink (Reset and Shrink of the double hash parsers DHP and BDHP)",
+		methods("doubleHashDictionary", "init", "Reset", "Shrink"), true, true},
+	{"BHPInit", "bhp.go: backwardHashParser.init", methods("backwardHashParser", "init"), true, true},
+	{"DHPInit", "dhp.go: doubleHashParser.init", methods("doubleHashParser", "init"), true, true},
+	{"BDHPInit", "bdhp.go: bdhp.init", methods("bdhp", "init"), true, true},
 }
+
+// part3Topics: the topics of the third part of the translator (code_gslice.go); they are
+// topics of the second part as well (part2 is set).
+var part3Topics = map[string]bool{"HashTab": true, "HashDict": true, "HPInit": true, "BucketTab": true,
+	"BucketDict": true, "DHashDict": true, "BHPInit": true, "DHPInit": true, "BDHPInit": true}
 
 func methods(recv string, names ...string) []fnKey {
 	var out []fnKey
@@ -157,6 +176,7 @@ func (c *codegen) restore(s cgSnap) {
 	c.busy = map[fnKey]bool{}
 	c.cur = nil
 	c.phase2 = false
+	c.phase3 = false
 }
 
 // checkReflPrimsSoft is checkReflPrims with a refusal instead of a fatal error.
@@ -201,7 +221,7 @@ func genCodeTopics(p *pkgInfo, repo, codeFile string) (partial bool) {
 	c := &codegen{p: p, fns: p.funcs(), structs: p.structs(), constTypes: map[string]ast.Expr{},
 		whiteSet: map[fnKey]bool{}, mutates: map[fnKey]bool{}, refl: map[string]*reflInfo{},
 		structSeen: map[string]bool{}, done: map[fnKey]bool{}, busy: map[fnKey]bool{},
-		structPhase: map[string]int{}, sigs: map[fnKey]*fnSig{}, white2Set: map[fnKey]bool{}}
+		structPhase: map[string]int{}, sigs: map[fnKey]*fnSig{}, white2Set: map[fnKey]bool{}, white3Set: map[fnKey]bool{}}
 	for _, f := range p.files {
 		for _, d := range f.Decls {
 			if gd, ok := d.(*ast.GenDecl); ok && gd.Tok == token.CONST {
@@ -245,15 +265,18 @@ func genCodeTopics(p *pkgInfo, repo, codeFile string) (partial bool) {
 	}
 	// first-part topics first: a function of the second part may call one of the first, never the other way round
 	{
-		var t1, t2 []topic
+		var t1, t2, t3 []topic
 		for _, t := range topics {
-			if t.part2 {
+			switch {
+			case part3Topics[t.name]:
+				t3 = append(t3, t)
+			case t.part2:
 				t2 = append(t2, t)
-			} else {
+			default:
 				t1 = append(t1, t)
 			}
 		}
-		topics = append(t1, t2...)
+		topics = append(append(t1, t2...), t3...)
 	}
 	// helpers that are followed automatically (see helperCallees): added to the calling topic
 	autoHelper := map[fnKey]bool{}
@@ -295,7 +318,14 @@ func genCodeTopics(p *pkgInfo, repo, codeFile string) (partial bool) {
 			c.white = append(c.white, k)
 			c.whiteSet[k] = true
 			if t.part2 && (!autoHelper[k] || helperPart2[k]) {
-				c.white2Set[k] = true
+				if part3Topics[t.name] {
+					if !c.white2Set[k] {
+						c.white3Set[k] = true
+					}
+				} else {
+					c.white2Set[k] = true
+					delete(c.white3Set, k)
+				}
 			}
 		}
 	}
@@ -353,11 +383,11 @@ func genCodeTopics(p *pkgInfo, repo, codeFile string) (partial bool) {
 			if t.refl {
 				c.checkReflPrimsSoft()
 			}
-			c.phase2 = t.part2
+			c.phase2, c.phase3 = t.part2, part3Topics[t.name]
 			for _, k := range t.fns {
 				c.ensure(k, c.fns[k])
 			}
-			c.phase2 = false
+			c.phase2, c.phase3 = false, false
 		}
 		res.refused, res.msg = guarded(run)
 		if res.refused {
@@ -432,6 +462,14 @@ func genCodeTopics(p *pkgInfo, repo, codeFile string) (partial bool) {
 		sb.WriteString(leanPrelude2)
 		sb.WriteString("\nend LZ.Gen\n")
 		write("CodeSlicePrelude", sb.String())
+	}
+	{
+		var sb strings.Builder
+		header(&sb, "Third prelude of the translation (hash tables): slices of any element type as values with capacity, signed shift counts.", []string{"CodeSlicePrelude"})
+		sb.WriteString("namespace LZ.Gen\n\n")
+		sb.WriteString(leanPrelude3)
+		sb.WriteString("\nend LZ.Gen\n")
+		write("CodeGSlicePrelude", sb.String())
 	}
 	errVarNames := map[string]bool{}
 	{
@@ -529,6 +567,9 @@ func genCodeTopics(p *pkgInfo, repo, codeFile string) (partial bool) {
 		imports := []string{"CodePrelude"}
 		if res.t.part2 {
 			imports = append(imports, "CodeSlicePrelude")
+			if part3Topics[res.t.name] {
+				imports = append(imports, "CodeGSlicePrelude")
+			}
 			for _, tok := range identRe.FindAllString(body.String(), -1) {
 				if errVarNames[tok] {
 					imports = append(imports, "CodeErrVars")
@@ -554,7 +595,7 @@ func genCodeTopics(p *pkgInfo, repo, codeFile string) (partial bool) {
 	{
 		var sb strings.Builder
 		header(&sb, "Umbrella: imports every topic module that could be translated.",
-			append([]string{"CodePrelude", "CodeSlicePrelude", "CodeErrVars"}, present...))
+			append([]string{"CodePrelude", "CodeSlicePrelude", "CodeGSlicePrelude", "CodeErrVars"}, present...))
 		for _, res := range results {
 			if res.refused {
 				fmt.Fprintf(&sb, "-- topic %s REFUSED: %s\n", res.t.name, oneLine(strings.ReplaceAll(res.msg, "extract: ", "")))
@@ -565,7 +606,7 @@ func genCodeTopics(p *pkgInfo, repo, codeFile string) (partial bool) {
 		}
 	}
 	// modules of topics that no longer exist (an older topic table) must not linger
-	keep := map[string]bool{"Code.lean": true, "CodeAttr.lean": true, "CodePrelude.lean": true, "CodeSlicePrelude.lean": true, "CodeErrVars.lean": true}
+	keep := map[string]bool{"Code.lean": true, "CodeAttr.lean": true, "CodePrelude.lean": true, "CodeSlicePrelude.lean": true, "CodeGSlicePrelude.lean": true, "CodeErrVars.lean": true}
 	for _, f := range present {
 		keep[f+".lean"] = true
 	}
